@@ -27,6 +27,8 @@ use white_whale_std::{fee_collector, fee_distributor, whale_lair};
 use crate::world::*;
 
 pub const OWNER: &str = "owner";
+/// deploys contracts whose instantiate message names the owner explicitly (deployer != configured owner)
+pub const DEPLOYER: &str = "deployer";
 pub const WADMIN: &str = "wadmin";
 pub const NEWOWNER: &str = "newowner";
 pub const CREATOR: &str = "creator";
@@ -563,7 +565,8 @@ impl Hub {
         let vault_factory = must_instantiate(
             &mut app,
             codes.vault_factory,
-            OWNER,
+            // deployed by somebody else on behalf of the owner: the configured owner is the one named in the message
+            DEPLOYER,
             &vault_factory::InstantiateMsg { owner: OWNER.to_string(), vault_id: codes.vault, token_id: codes.token, fee_collector_addr: collector.clone() },
             "vault_factory",
             adm,
@@ -571,7 +574,7 @@ impl Hub {
         let vault_router = must_instantiate(
             &mut app,
             codes.vault_router,
-            OWNER,
+            DEPLOYER,
             &vault_router::InstantiateMsg { owner: OWNER.to_string(), vault_factory_addr: vault_factory.clone() },
             "vault_router",
             adm,
